@@ -12,7 +12,9 @@ modeling.EventDrivenComponent on a real timing.SerialEngine, in three delivery m
 RunUntil calls; from env events scheduled up front; from chained env events) and three notification variants
 (NotifyRecv / NotifyPortFree called directly; produced by a real loop-back port of the component; delivered by
 another goroutine while the processor is parked inside Process).  A dispatch of the model carries what happens WHILE
-the processor runs: wake requests and notifications.  The same situation is also run on a real timing.ParallelEngine
+the processor runs (wake requests and notifications) and what the run reports afterwards (a free boolean: the
+statement does not let the obligation depend on it); the scripted processor returns exactly that, and the sequences
+"run reports no progress @T -> request / notification @T" are replayed explicitly.  The same situation is also run on a real timing.ParallelEngine
 (another handler of the same instant notifies while the processor runs).  The driver returns the log of
 requests / notifications / processor invocations in the order they happened; the oracle below applies the rules of
 the abstract layer to that log.  The number and the times of processor runs are NOT compared with the model: extra
@@ -59,6 +61,19 @@ def judge(log):
     return None
 
 
+def after_idle_run(log, v):
+    """Feature of a failing case: the unmet obligation was raised at the very instant of a preceding processor run
+    that had reported 'no progress' (third field of a run entry = 1)."""
+    deadline, src = v[2], v[1]
+    raised = next((i for i, e in enumerate(log) if e[0] == src and e[2] == deadline), None)
+    if raised is None:
+        return False
+    for e in reversed(log[:raised + 1]):
+        if e[0] == "run":
+            return bool(e[2]) and e[1] == log[raised][1]
+    return False
+
+
 def tlc_judge(ck, logs, expect_accept):
     """The same judgement by TLC: EventDrivenTrace.tla over the concatenated logs. Returns True if accepted."""
     d = core.scratch("c13trace-")
@@ -97,7 +112,8 @@ def run(ck):
     _selftest()
     g, r = objcheck.graph_from_tlc(ck, ["tick"], "EventDriven", "EventDriven_q.cfg" if q else "EventDriven_t.cfg",
                                    workers=4 if q else 8, timeout=1200)
-    for cfg in (("EventDriven_control3.cfg",) if q else ("EventDriven_control1.cfg", "EventDriven_control2.cfg", "EventDriven_control3.cfg")):
+    for cfg in (("EventDriven_control3.cfg", "EventDriven_control4.cfg") if q else
+                ("EventDriven_control1.cfg", "EventDriven_control2.cfg", "EventDriven_control3.cfg", "EventDriven_control4.cfg")):
         rc = ck.run_tlc(["tick"], "EventDriven", cfg, workers=2, timeout=300)
         if rc.ok or rc.violated != "WakeNoLaterThan":
             raise core.Broken("control %s: TLC did not refute WakeNoLaterThan for the mutated guard (ok=%s violated=%s)" % (
@@ -119,6 +135,23 @@ def run(ck):
     n_cover = len(hs)
     walks, wl = (300, 40) if q else (2000, 60)
     hs += g.random_walks(ck.rng, walks, wl)
+    # targeted same-instant sequences: run(reports no progress)@T -> request / notification @T -> dispatch
+    # (the statement does not let the obligation depend on what a run reported)
+    trip = []
+    for (s0, a1, s1) in g.edges:
+        if a1["op"] == "dispatch" and a1["idle"] and s0 in g.parent:
+            for a2, s2 in g.out[s1]:
+                if a2["op"] in ("notify_recv", "notify_free") or (a2["op"] == "req" and a2["d"] == 0):
+                    nxt = [(a3, s3) for a3, s3 in g.out[s2] if a3["op"] == "dispatch"]
+                    if nxt:
+                        trip.append((s0, a1, s1, a2, s2) + ck.rng.choice(nxt))
+    n_trip_all = len(trip)
+    if len(trip) > (300 if q else 6000):
+        trip = ck.rng.sample(trip, 300 if q else 6000)
+    for s0, a1, s1, a2, s2, a3, s3 in trip:
+        root, steps = g.path_to(s0)
+        hs.append(g.history(root, list(steps) + [(a1, s1), (a2, s2), (a3, s3)]))
+    ck.cov["idle_run_then_same_instant_request"] = {"sequences_in_graph": n_trip_all, "replayed": len(trip)}
 
     def nontrivial(h):
         pend = h["init"]["pending"]
@@ -149,7 +182,7 @@ def run(ck):
     hs_all = hs
     for ci, (mode, notify) in enumerate(combos):
         B = 5000
-        cfgd = {"mode": mode, "notify": notify}
+        cfgd = {"mode": mode, "notify": notify, "tail_idle": ci % 2 == 0}    # what runs beyond the script report
         # the complete edge cover for the first combination; a seeded sample of it (+ all walks) for the others when it is large
         hs = hs_all if (ci == 0 or n_cover <= 6000) else ck.rng.sample(hs_all[:n_cover], 6000) + hs_all[n_cover:]
         n_replayed += len(hs)
@@ -172,7 +205,7 @@ def run(ck):
                         what, src, deadline,
                         ("an entry at time %d with no processor run in between" % at) if what == "late" else "the end of the simulation without a run",
                         mode, notify, log[:idx + 1]))
-                    rejected.append((len(log), {"what": what, "source": src, "mode": mode, "notify": notify}, desc, rp, log))
+                    rejected.append((len(log), {"what": what, "source": src, "mode": mode, "notify": notify, "after_idle_run": after_idle_run(log, v)}, desc, rp, log))
                 else:
                     accepted.append(log)
         ck.cov["traces_validated_against_impl"] += len(hs)
@@ -182,9 +215,11 @@ def run(ck):
         for notes in ([100], [101], [100, 101], [101, 100, 100]):
             for script in ([], [[1]], [[0], [101]], [[100, 2], [0]], [[2, 0], [100]]):
                 for nv in ("direct", "port"):
-                    scen.append({"t": T, "notes": notes, "script": script, "notify": nv})
+                    for first_idle in (False, True):
+                        scen.append({"t": T, "notes": notes, "script": script, "notify": nv, "first_idle": first_idle,
+                                     "idles": [ck.rng.random() < .5 for _ in script], "tail_idle": ck.rng.random() < .5})
     if q:
-        scen = ck.rng.sample(scen, 40)
+        scen = ck.rng.sample(scen, 60)
     out = core.harness(binary, "eventdriven_parallel", {"scenarios": scen}, timeout=600)
     overlapped = sum(1 for o in out["overlap"] if o)
     ck.cov["parallel_engine_scenarios"] = {"run": len(scen), "notification_arrived_during_the_run": overlapped}
@@ -202,7 +237,7 @@ def run(ck):
         v = judge(log)
         if v:
             what, src, deadline, at, idx = v
-            rejected.append((len(log), {"what": what, "source": src, "mode": "parallel_engine", "notify": sc["notify"]},
+            rejected.append((len(log), {"what": what, "source": src, "mode": "parallel_engine", "notify": sc["notify"], "after_idle_run": after_idle_run(log, v)},
                              "%s run on the parallel engine: a %s for time %d is not followed by a processor run in time; scenario %s; log %s" % (
                                  what, src, deadline, sc, log[:idx + 1]), rp, log))
         else:
@@ -234,7 +269,7 @@ def run(ck):
         ck.sample({"ops": [[s["a"]["op"], s["a"]["d"], s["a"]["reqs"]] for s in h["steps"]][:14]})
     hs = hs_all
     ck.cov["histories_replayed"] = n_replayed
-    ck.note("%d histories (%d edge-cover + %d walks), %d replays over %d mode/notify combinations (+%d parallel-engine scenarios): %d log entries (%d also judged by TLC), %d processor runs, "
+    ck.note("%d histories (%d edge-cover + %d walks and idle-run sequences), %d replays over %d mode/notify combinations (+%d parallel-engine scenarios): %d log entries (%d also judged by TLC), %d processor runs, "
             "%d contradictions" % (len(hs), n_cover, len(hs) - n_cover, n_replayed, len(combos), len(scen), total_entries, n_tlc, runs, found))
 
 
@@ -254,6 +289,7 @@ def replay(ck, doc):
         return
     v = judge(log)
     if v:
-        ck.report({"what": v[0], "source": v[1], "mode": rp["config"]["mode"], "notify": rp["config"].get("notify", "direct")},
+        ck.report({"what": v[0], "source": v[1], "mode": rp["config"]["mode"], "notify": rp["config"].get("notify", "direct"),
+                   "after_idle_run": after_idle_run(log, v)},
                   "%s run: a %s for time %d is not followed by a processor run in time; log %s" % (v[0], v[1], v[2], log[:v[4] + 1]),
                   dict(rp, log=log))
